@@ -361,3 +361,25 @@ func init() {
 		fmt.Println(n)
 	}
 }
+
+func init() {
+	exploreExtra["rangekey"] = func(p *Prog) {
+		c := NewCtx(p, "X", "quick")
+		c.quiet = true
+		ruleRangeKey(c, "RANGE-KEY", p.ModulePkgs())
+		for _, o := range c.Obls {
+			fmt.Printf("%s\t%s\t%v\t%s\n", o.Pos, o.Instance, o.OK, short(o.Msg, 160))
+		}
+	}
+}
+
+func init() {
+	exploreExtra["withflag"] = func(p *Prog) {
+		c := NewCtx(p, "X", "quick")
+		c.quiet = true
+		ruleWithFlagNoop(c, "WITH-FLAG-NOOP", p.ModulePkgs(), 0)
+		for _, o := range c.Obls {
+			fmt.Printf("%s\t%s\t%v\t%s\n", o.Pos, o.Instance, o.OK, short(o.Msg, 160))
+		}
+	}
+}
